@@ -213,6 +213,15 @@ class World:
             scen['shared_io'] = rng.choice([2, 3])
         elif q < 0.35:
             scen['pinata'] = True
+        if rng.random() < 0.3:
+            # shut the node down while a short poll (0.3 s, shorter than the time shutdown waits for the poll threads) is in flight
+            for m in mods:
+                m['read_takes'] = 0.3
+                m['read_fails'] = False
+            scen['shutdown_in_flight'] = True
+            if rng.random() < 0.6:
+                scen['shared_io'] = rng.choice([2, 3])
+                scen.pop('pinata', None)
         return scen
 
     def build_cfg(self, scen):
@@ -299,7 +308,18 @@ class World:
             info['node'] = node
             self.LOG.append((len(self.LOG), s.now, 'node', 'ready', info['result']))
             if info['result'] == 'ok':
-                D.vsleep(12)
+                if scen.get('shutdown_in_flight'):
+                    D.vsleep(10)
+                    limit = s.now + 12
+                    while s.now < limit:
+                        started = [e for e in self.LOG if e[3] == 'read_value']
+                        ended = sum(1 for e in self.LOG if e[3] == 'read_value-end')
+                        if len(started) > ended and started[-1][1] > s.now - 0.2:
+                            info['in_flight'] = started[-1][2]
+                            break
+                        D.vsleep(0.02)
+                else:
+                    D.vsleep(12)
                 self.LOG.append((len(self.LOG), s.now, 'node', 'shutdown-call'))
                 node.secnode.shutdown_modules()
                 self.LOG.append((len(self.LOG), s.now, 'node', 'shutdown-done'))
@@ -391,6 +411,18 @@ class World:
         # ---- shutdown
         r.count('shutdowns_checked')
         sd = {e[2]: e[0] for e in LOG if e[3] == 'shutdown'}
+        if info.get('in_flight'):
+            # every poll thread is stopped first: a poll in flight that ends within the time shutdown waits for the threads
+            # (0.5 s) is over before the first shutdownModule
+            r.count('shutdowns_with_poll_in_flight')
+            call = next(e for e in LOG if e[3] == 'shutdown-call')
+            first_sd = min(sd.values(), default=None)
+            ends = [e for e in LOG if e[3] == 'read_value-end' and e[0] > call[0]]
+            if first_sd is not None and ends and ends[0][1] - call[1] < 0.4 and ends[0][0] > first_sd:
+                which = next(e[2] for e in LOG if e[0] == first_sd)
+                r.violation('C15/shutdown-while-poll-in-flight', f'shutdownModule of {which} ran while a poll of {ends[0][2]} was still executing '
+                            f'(it ended {ends[0][1] - call[1]:.2f} s after shutdown was requested)', case)
+                return
         for name, idx in sd.items():
             later = [e for e in LOG if e[2] == name and e[0] > idx and e[3] in ('doPoll', 'read_value')]
             if later:
